@@ -139,13 +139,14 @@ def load_generated(name_dir, target):
     def run(job):
         part, src, js = job
         if not os.path.exists(js):
-            cmd = [BIN, '--out=' + js + '.tmp', '--root=' + name_dir.rstrip('/') + '/', '--fn-root=' + name_dir.rstrip('/') + '/', '--no-patterns', src, '--',
+            tmpj = '%s.%d.tmp' % (js, os.getpid())
+            cmd = [BIN, '--out=' + tmpj, '--root=' + name_dir.rstrip('/') + '/', '--fn-root=' + name_dir.rstrip('/') + '/', '--no-patterns', src, '--',
                    '-x', 'c++', '-std=gnu++17', '-DHAVE_CONFIG_H', '-I' + name_dir, '-I' + REPO, '-I' + os.path.join(REPO, 'include'), '-UNDEBUG',
                    '-I' + RESOURCE_INC, '-Wno-everything']
             p = subprocess.run(cmd, capture_output=True, text=True)
-            if p.returncode != 0 or not os.path.exists(js + '.tmp'):
+            if p.returncode != 0 or not os.path.exists(tmpj):
                 raise AnalysisBroken('generated code does not parse: %s\n%s' % (src, p.stderr[-1500:]))
-            os.replace(js + '.tmp', js)
+            os.replace(tmpj, js)
         return part, js
     from concurrent.futures import ThreadPoolExecutor
     with ThreadPoolExecutor(max_workers=3) as ex:
